@@ -50,6 +50,9 @@ BIG = 1 << 20
 
 def cases(tier, seed):
     n = 2400 if tier == "quick" else 60000
+    for j, (cls, code) in enumerate([("zlib", "i"), ("gzip", "d")] * (1 if tier == "quick" else 4)):
+        # one write() of a buffer with items larger than a byte and more than 16 MiB of data
+        yield dict(i=10 ** 6 + j, size=(1 << 24) + 8 * (j + 1), kind="zeros" if j % 2 else "lines", cls=cls, level=1 + j % 3, L=4, one_write_as=code)
     for i in range(n):
         rng = harness.rng_for(seed, ID, i)
         size = rng.choice(SIZES) if rng.random() < 0.97 else BIG
@@ -123,13 +126,29 @@ def run_case(case, ctx):
             raw = io.BytesIO()
             f = Cls(raw if target == "bytesio" else path, "wb", compresslevel=case["level"])
             total = 0
-            for c in chunks():
-                if rng.random() < 0.3:
+            import array
+            for c in ([data] if case.get("one_write_as") else chunks()):
+                nbytes = len(c)
+                k = rng.random()
+                is_array = False
+                if case.get("one_write_as"):
+                    a = array.array(case["one_write_as"])
+                    a.frombytes(c)
+                    c, is_array = a, True
+                    ctx.count("single_writes_of_large_multibyte_item_buffers")
+                elif k < 0.3:
                     c = memoryview(c)
+                elif k < 0.4:
+                    c = bytearray(c)
+                elif k < 0.5 and nbytes % 4 == 0 and nbytes:
+                    a = array.array("i" if nbytes % 8 else "d")
+                    a.frombytes(c)
+                    c, is_array = (a if rng.random() < 0.5 else memoryview(a)), True
+                    ctx.count("writes_of_multibyte_item_buffers")
                 r = f.write(c)
-                total += len(c)
-                if r != len(c) or f.tell() != total:
-                    ctx.violation("write:count-or-tell", f"write returned {r} for {len(c)} bytes, tell={f.tell()} total={total}",
+                total += nbytes
+                if r != nbytes or f.tell() != total:
+                    ctx.violation("write:count-or-tell", f"write returned {r} for {nbytes} bytes, tell={f.tell()} total={total}",
                                   dict(case=case))
             f.close()
             if target == "path":
